@@ -355,9 +355,12 @@ Print Assumptions C02_checked_writer_total.
                                      (times and settings) and the text lines; the identifier line has at most 19 bytes;
    C02_read_rendered_within_limit, C02_read_rendered_gen_within_limit, C02_eol_within_limit   every rendering, every line end;
    C02_refused_beyond_limit          the refusal under the structural conditions of C02_write_is_rendering alone;
-   C02_line_bound_sharp, C02_needs_line_bound   one cue with a text line of n letters, buffer of 48 bytes: 47 letters are read
-                                     back and 48 refused under every schedule (47 fail once the lines end in CR LF);
-   C02_real_line_bound               the real constant: a text line of 65536 letters is refused under every schedule.
+   C02_line_bound_sharp              one cue with a text line of n letters (representable for every n > 0): read back iff
+                                     n + 1 <= max, for every max >= 30 and every schedule;
+   C02_needs_line_bound              the same by computation on a buffer of 48 bytes, with the error returned (EIO: the
+                                     scanner's error); 47 letters pass with LF and fail once the lines end in CR LF;
+   C02_real_line_bound               the real constant: 65535 letters are read back, 65536 refused, under every schedule,
+                                     while the document with 65536 letters satisfies repr_vdoc.
    Replayed on the library by the harness suite vtt.linebound (lines of 65533 .. 65537 bytes). *)
 From Coq Require Import Arith.
 From Astisub Require Import Kit.ScanLim Proofs.ScanLimProofs Proofs.LineBound Proofs.LineBoundVtt.
@@ -420,18 +423,23 @@ Theorem C02_refused_beyond_limit : forall (max : nat) d so ro, vd_items d <> [] 
 Proof. exact write_vtt_beyond. Qed.
 Print Assumptions C02_refused_beyond_limit.
 
-(* the bound is needed and sharp: a_vdoc n = one cue, one text line of n letters a (timing line: 29 bytes) *)
-Theorem C02_line_bound_sharp :
-  repr_vdoc (a_vdoc 47) [] [] /\ repr_vdoc (a_vdoc 48) [] [] /\
-  (exists data, write_vtt (a_vdoc 47) [] [] = Ok data /\ forall counts, read_vtt_lim 48 data counts = Ok (ndoc (a_vdoc 47) [] [])) /\
-  (exists data, write_vtt (a_vdoc 48) [] [] = Ok data /\ read_vtt data = Ok (ndoc (a_vdoc 48) [] []) /\
-     forall counts, exists k, read_vtt_lim 48 data counts = Err k).
-Proof. exact (conj (proj1 (proj2 a_vdoc_repr_48)) (conj (proj2 (proj2 a_vdoc_repr_48)) vtt_line_bound_sharp_48)). Qed.
+(* the bound is needed and sharp: a_vdoc n = one cue, one text line of n letters a (timing line: 29 bytes); representable
+   for every n > 0, read back iff n + 1 <= max, for every buffer size above the timing line and every schedule *)
+Theorem C02_line_bound_sharp : forall (max : nat) (n : N), (30 <= max)%nat -> (0 < n)%N ->
+  repr_vdoc (a_vdoc n) [] [] /\
+  exists data, write_vtt (a_vdoc n) [] [] = Ok data /\ read_vtt data = Ok (ndoc (a_vdoc n) [] []) /\
+    ((N.to_nat n + 1 <= max)%nat -> forall counts, read_vtt_lim max data counts = Ok (ndoc (a_vdoc n) [] [])) /\
+    ((max < N.to_nat n + 1)%nat -> forall counts, exists k, read_vtt_lim max data counts = Err k).
+Proof. exact vtt_line_bound_sharp. Qed.
 Print Assumptions C02_line_bound_sharp.
 
 Theorem C02_real_line_bound :
-  exists data, write_vtt (a_vdoc 65536) [] [] = Ok data /\ forall counts, exists k, read_vtt_lim max_scan_token data counts = Err k.
-Proof. exact vtt_real_line_bound. Qed.
+  repr_vdoc (a_vdoc 65536) [] [] /\
+  (exists data, write_vtt (a_vdoc 65535) [] [] = Ok data /\
+     forall counts, read_vtt_lim max_scan_token data counts = Ok (ndoc (a_vdoc 65535) [] [])) /\
+  (exists data, write_vtt (a_vdoc 65536) [] [] = Ok data /\ read_vtt data = Ok (ndoc (a_vdoc 65536) [] []) /\
+     forall counts, exists k, read_vtt_lim max_scan_token data counts = Err k).
+Proof. exact vtt_real_line_bound_full. Qed.
 Print Assumptions C02_real_line_bound.
 
 Example C02_needs_line_bound :
